@@ -168,7 +168,7 @@ pub struct SimScenario {
     pub sys: System,
     pub scripts: HashMap<String, Rc<RefCell<Script>>>,
     pub py_procs: std::collections::HashSet<String>,
-    pub issued: HashMap<String, Rc<std::cell::Cell<u64>>>,
+    pub issued: HashMap<String, Rc<RefCell<Vec<String>>>>,
     pub rule_tokens: Vec<(String, Vec<String>)>,
     pub trace_seen: usize,
     pub dead: bool,
@@ -227,17 +227,30 @@ impl SimScenario {
                     .iter()
                     .map(|e| format!("{}:{}", hexf(e.time), show_pev(&e.event)))
                     .collect();
-                // actions by the process's own count (script processes) resp. by the event log (Python processes keep no count)
-                let logged = log
+                // the actions in the event log, in the compact form of the process's own record
+                let logged: Vec<String> = node
+                    .event_log(&p)
                     .iter()
-                    .filter(|l| [":sent(", ":lsent(", ":tset(", ":tcancel("].iter().any(|k| l.contains(k)))
-                    .count() as u64;
-                let issued = match self.issued.get(&p) {
-                    Some(c) if !self.py_procs.contains(&p) => c.get(),
-                    _ => logged,
+                    .filter_map(|e| match &e.event {
+                        ProcessEvent::MessageSent { msg, dst, .. } => Some(format!("S:{}:{}", msg.tip, dst)),
+                        ProcessEvent::LocalMessageSent { msg } => Some(format!("L:{}", msg.tip)),
+                        ProcessEvent::TimerSet { name, delay, behavior } => Some(format!(
+                            "T:{}:{}:{}",
+                            name,
+                            units_of(*delay),
+                            if *behavior == TimerBehavior::SetOnce { 1 } else { 0 }
+                        )),
+                        ProcessEvent::TimerCancelled { name } => Some(format!("C:{}", name)),
+                        _ => None,
+                    })
+                    .collect();
+                // script processes keep their own record of what they issued (Python processes do not)
+                let (issued, issok) = match self.issued.get(&p) {
+                    Some(c) if !self.py_procs.contains(&p) => (c.borrow().len(), *c.borrow() == logged),
+                    _ => (logged.len(), true),
                 };
                 out.push(format!(
-                    "P {} {} st={} out={} s={} r={} iss={} log={}",
+                    "P {} {} st={} out={} s={} r={} iss={} issok={} log={}",
                     p,
                     n,
                     st,
@@ -245,6 +258,7 @@ impl SimScenario {
                     node.sent_message_count(&p),
                     node.received_message_count(&p),
                     issued,
+                    issok as u8,
                     show_list(&log)
                 ));
             }
